@@ -182,6 +182,7 @@ func scenarioC20Serve(rc *RunCtx) *Violation {
 	d := newDisk(g)
 	d.Gran = 1
 	p.WriteTo(d, false)
+	dumpProject(p, o)
 	opts := o.Build(p)
 	absOutdir := p.Root + "/" + opts.Outdir
 
@@ -239,6 +240,7 @@ func scenarioC20Serve(rc *RunCtx) *Violation {
 		}
 	}
 
+	watchDelay := watchDelays[g.n(len(watchDelays))]
 	nClients := 2 + g.n(3)
 	progs := make([][]sOp, nClients)
 	var progDesc []string
@@ -329,7 +331,7 @@ func scenarioC20Serve(rc *RunCtx) *Violation {
 					case "dispose":
 						ctx.Dispose()
 					case "watch":
-						if err := ctx.Watch(api.WatchOptions{}); err != nil {
+						if err := ctx.Watch(api.WatchOptions{Delay: watchDelay}); err != nil {
 							res = "err:" + err.Error()
 						}
 					case "sleep":
